@@ -8,18 +8,23 @@ EXTENDS Naturals, Sequences, FiniteSets, TLC, Json
 CONSTANT MaxFlags
 VARIABLE cl
 
-Tools == {"validate", "write", "eject", "grammar", "cli_validate", "cli_write"}
+Tools == {"validate", "write", "eject", "grammar", "cli_validate", "cli_write", "write_changes", "cli_write_changes"}
+   \* *_changes: the file holds a document of the OPPOSITE class and the amendment turns it into the content class of the call
+   \* (valid -> invalid by a value outside an enum / invalid -> valid): the status must describe what is written
 Contents == {"valid", "invalid", "strict_only", "extra_field", "unparseable", "empty"}
    \* valid / invalid relative to the schema of the call; strict_only: only STRICT finds fault (an undeclared META field);
    \* extra_field: valid plus a field the schema block does not declare (an error under REJECT, advisory under WARN)
 Schemas == {"builtin_meta", "packaged_file", "generated", "generated_warn", "unknown", "pathlike", "lowercase",
-            "frozen_good", "frozen_bad_digest", "frozen_malformed", "latest_missing"}
+            "frozen_good", "frozen_bad_digest", "frozen_malformed", "latest_missing", "generated_rewritten", "generated_removed"}
+   \* generated_rewritten: the same process used the name before, when the file held a permissive schema; the file now holds the
+   \* schema of class "generated".  generated_removed: the process used the name before; the file has been deleted since.
 Profiles == {"STRICT", "STANDARD", "LENIENT", "ULTRA"}
 FlagsOf(t) == CASE t = "validate" -> {"fix", "diff_only", "compact", "grammar_hint", "debug_grammar"}
                 [] t = "write" -> {"lenient", "corrections_only", "grammar_hint", "debug_grammar"}
                 [] t = "eject" -> {"mode_authoring", "mode_executive", "mode_developer", "fmt_json", "fmt_yaml", "fmt_markdown", "fmt_gbnf"}
                 [] t = "grammar" -> {"json_schema", "by_content"}
                 [] t = "cli_validate" -> {"fix"}
+                [] t = "write_changes" -> {"corrections_only", "grammar_hint"}
                 [] OTHER -> {}
 ProfilesOf(t) == IF t = "validate" THEN Profiles ELSE {"STANDARD"}
 FlagOK(t, fs) == ~({"mode_authoring", "mode_executive"} \subseteq fs) /\ ~({"mode_authoring", "mode_developer"} \subseteq fs)
@@ -27,6 +32,7 @@ FlagOK(t, fs) == ~({"mode_authoring", "mode_executive"} \subseteq fs) /\ ~({"mod
 
 Init == \E t \in Tools, c \in Contents, s \in Schemas, p \in Profiles :
           /\ p \in ProfilesOf(t)
+          /\ (t \in {"write_changes", "cli_write_changes"} => c \in {"valid", "invalid"} /\ s \in {"builtin_meta", "unknown"})
           /\ cl = [tool |-> t, content |-> c, schema |-> s, profile |-> p, flags |-> {}, done |-> FALSE]
 Choose == /\ ~cl.done
           /\ \E fs \in SUBSET FlagsOf(cl.tool) : /\ Cardinality(fs) <= MaxFlags /\ FlagOK(cl.tool, fs)
@@ -41,10 +47,10 @@ EmitCase == IF cl.done THEN PrintT(ToJson([tool |-> cl.tool, content |-> cl.cont
 (*  eject and compile_grammar never apply a schema; the CLI knows the builtin META dictionary only)        *)
 MayBeFound(c) ==
   CASE c.tool \in {"eject", "grammar"} -> FALSE
-    [] c.tool \in {"cli_validate", "cli_write"} -> c.schema = "builtin_meta"
-    [] c.tool = "validate" -> c.schema \in {"builtin_meta", "packaged_file", "generated", "generated_warn"}
-    [] OTHER -> c.schema \in {"builtin_meta", "packaged_file", "generated", "generated_warn", "frozen_good"}
-Faulty(c) == c.content = "invalid" \/ (c.content = "extra_field" /\ c.schema \in {"generated", "frozen_good"})    \* UNKNOWN_FIELDS::REJECT
+    [] c.tool \in {"cli_validate", "cli_write", "cli_write_changes"} -> c.schema = "builtin_meta"
+    [] c.tool = "validate" -> c.schema \in {"builtin_meta", "packaged_file", "generated", "generated_warn", "generated_rewritten"}
+    [] OTHER -> c.schema \in {"builtin_meta", "packaged_file", "generated", "generated_warn", "frozen_good", "generated_rewritten"}
+Faulty(c) == c.content = "invalid" \/ (c.content = "extra_field" /\ c.schema \in {"generated", "frozen_good", "generated_rewritten"})    \* UNKNOWN_FIELDS::REJECT
              \/ (c.content = "strict_only" /\ c.tool = "validate" /\ c.profile = "STRICT" /\ c.schema = "builtin_meta")
 Downgrades(c) == c.tool = "validate" /\ c.profile \in {"LENIENT", "ULTRA"}      \* documented: errors become warnings
 
